@@ -212,7 +212,9 @@ def _direction_tabulate(ctx) -> None:
                 cases = [("__sub__", b, ("iv", (b, "is"), (a, "is"), False)), ("__sub__", aware, ("iv", (aware, "instance"), (a, "is"), False)),
                          ("__sub__", naive, ("iv", (naive, "naive"), (a, "is"), False)), ("__sub__", 5, ("ni",)), ("__sub__", "x", ("ni",)),
                          ("__rsub__", aware, ("iv", (a, "is"), (aware, "instance"), False)), ("__rsub__", naive, ("iv", (a, "is"), (naive, "naive"), False)),
-                         ("__rsub__", 5, ("ni",)), ("__rsub__", b, ("iv", (a, "is"), (b, "is"), False))]
+                         ("__rsub__", 5, ("ni",)), ("__rsub__", b, ("iv", (a, "is"), (b, "is"), False)),
+                         # a plain date and a datetime do not subtract (TypeError in the standard library): the operand must be refused, not used
+                         ("__sub__", _dt.date(2021, 1, 1), ("ni-or-typeerror",)), ("__rsub__", _dt.date(2021, 1, 1), ("ni-or-typeerror",))]
             else:
                 a = w.date(_dt.date(2021, 3, 1))
                 b = w.date(_dt.date(2021, 2, 1))
@@ -224,6 +226,19 @@ def _direction_tabulate(ctx) -> None:
                     continue
                 n += 1
                 label = f"{cls}.{meth}({other if not isinstance(other, minieval.Obj) else 'pendulum value'!r})"
+                if want[0] == "ni-or-typeerror":
+                    try:
+                        got = w.call(a, meth, [other])
+                    except minieval.Raised as e:
+                        if e.exc_name != "TypeError":
+                            bad.append(f"{label}: raises {e.exc_name} (the standard library answers TypeError)")
+                        continue
+                    except (AttributeError, core.Unsupported) as e:
+                        bad.append(f"{label}: the date is used like a datetime ({e}); the standard library answers TypeError")
+                        continue
+                    if got is not NotImplemented:
+                        bad.append(f"{label}: returns {got!r} (expected NotImplemented / TypeError)")
+                    continue
                 got = w.call(a, meth, [other])
                 if want[0] == "ni":
                     if got is not NotImplemented:
